@@ -52,6 +52,10 @@ func family(stage, msg string) string {
 		return "variable-duplicate"
 	case has("cannot be non-input type"):
 		return "variable-non-input"
+	case has("must be a constant but contains a variable"):
+		return "variable-default-const"
+	case has("fragment:") && has("must be unique per document"):
+		return "fragment-duplicate"
 	case has("Unknown type"):
 		return "unknown-type"
 	case has("fragment:") && has("undefined"):
